@@ -228,7 +228,7 @@ func (w *worker) runSel(c *selCase, raw []byte) {
 	for si := range c.Texts {
 		sp := &c.Texts[si]
 		text := cps(sp.Text)
-		if si > 0 && !(P["C18"]) {
+		if si > 0 && !(P["C18"] || w.opts["allspell"] == "1") {
 			break
 		}
 		for mi, m := range modes {
@@ -316,7 +316,7 @@ func (w *worker) runSel(c *selCase, raw []byte) {
 				}
 			}
 			// ---- C14 call logs (top-level trailing functions)
-			if P["C14"] && c.Det && len(c.Path.Funcs) > 0 {
+			if P["C14"] && c.Det {
 				w.checkLog(c, log, text, before, kinds, raw)
 			}
 			// ---- C18 spellings agree with the canonical spelling
@@ -331,7 +331,7 @@ func (w *worker) runSel(c *selCase, raw []byte) {
 						same = reflect.DeepEqual(cr.Vals, r.Vals)
 					} else if same {
 						// same type, same step (index in the step list)
-						same = errClass(cr.Err) == errClass(r.Err) && errStep(cr.Err, &c.Texts[0]) == errStep(r.Err, sp)
+						same = errClass(cr.Err) == errClass(r.Err) && sameStep(errSteps(cr.Err, &c.Texts[0]), errSteps(r.Err, sp))
 					}
 					if !same {
 						w.viol("C18", "spelling-changes-behaviour", text, before, fmt.Sprintf("canonical %q gives %s, this spelling gives %s", canon, cr, r), kinds, raw)
@@ -372,18 +372,27 @@ func primary(P map[string]bool, order ...string) string {
 	return keys[0]
 }
 
-// errStep finds which step/function text the error names (index into stexts), -1 if none
-func errStep(err error, sp *spelling) int {
+// errSteps finds which steps/functions the error may name (indices into stexts); a text can occur
+// at several steps (`$.a.a`), so the answer is a set
+func errSteps(err error, sp *spelling) map[int]bool {
 	msg := err.Error()
-	best := -1
+	out := map[int]bool{}
 	for i, t := range sp.Stexts {
 		s := cps(t)
 		if strings.HasSuffix(msg, "path="+s+")") || strings.Contains(msg, "function="+s+",") {
-			best = i
-			break
+			out[i] = true
 		}
 	}
-	return best
+	return out
+}
+
+func sameStep(a, b map[int]bool) bool {
+	for i := range a {
+		if b[i] {
+			return true
+		}
+	}
+	return len(a) == 0 && len(b) == 0
 }
 
 func StepsVGgo(ss []Step) bool {
@@ -415,6 +424,9 @@ func (w *worker) checkLog(c *selCase, log *callLog, text, before, kinds string, 
 		names[k] = true
 	}
 	for name := range names {
+		if name == "fid" || name == "gcnt" {
+			continue // reserved for filter operands: how often they run is left open (5.7d)
+		}
 		e, g := exp[name], got[name]
 		ok := len(e) == len(g)
 		if ok {
